@@ -120,10 +120,42 @@ func ServiceChain(s *Def) []*Def {
 //   - a constant naming an enum member through a typedef chain that crosses
 //     more file boundaries than a binding can express.
 func KnownRejectShapes(p *Program) (foreignStructLitIdent, enumViaTypedefFar bool) {
+	var hasIdent func(v *Value) bool
+	hasIdent = func(v *Value) bool {
+		if v == nil {
+			return false
+		}
+		if v.Kind == VIdent && !v.IsBoolKw {
+			return true
+		}
+		for _, e := range v.List {
+			if hasIdent(e) {
+				return true
+			}
+		}
+		for _, k := range v.Keys {
+			if hasIdent(k) {
+				return true
+			}
+		}
+		return false
+	}
 	var walk func(file *File, t *Type, v *Value, foreign bool, depth int)
 	walk = func(file *File, t *Type, v *Value, foreign bool, depth int) {
 		if t == nil || v == nil || depth > 40 {
 			return
+		}
+		// a container literal whose declared type is a typedef'd container of another file is
+		// rejected when it contains identifiers (the restriction that came with the repair of
+		// C01 typedef-container-literal): counted with the first shape
+		if (v.Kind == VList || v.Kind == VMap) && t.Ref != nil && t.Ref.Kind == KTypedef {
+			last := t.Ref // the typedef whose target is the container itself
+			for last.Type != nil && last.Type.Ref != nil && last.Type.Ref.Kind == KTypedef {
+				last = last.Type.Ref
+			}
+			if c := t.FinalCat(); (c == "list" || c == "set" || c == "map") && last.File != file && hasIdent(v) {
+				foreignStructLitIdent = true
+			}
 		}
 		if v.Kind == VIdent && !v.IsBoolKw {
 			if foreign {
